@@ -9,8 +9,13 @@
      call    : VL [VN tag; fields...] in constructor order of Gating.call (tags 0..14)
      event   : VL [VN 0; VB k] assert | VL [VN 1; VB k] lookup | VL [VN 2] register | VL [VN 3] send
      outcome : VL [VN 0] sent | VL [VN 1; VN code]
-   run (VL [VN 2; VB s]) -> xml_chars_ok s *)
-From NC Require Import Model.Base Model.Caps Model.Xml Model.Gating.
+   run (VL [VN 2; VB s]) -> xml_chars_ok s
+   run (VL [VN 3; sess; vcall]) -> VL [VL events; outcome]      (Model/VendorGating.vperform)
+     vcall   : VL [VN 0; VB fmt; dsarg; VL [] | VL [optexn]; optexn]   alu load_configuration
+             | VL [VN 1; optexn]                                       alu get_configuration
+             | VL [VN 2; dsarg; optexn]                                h3c get_bulk_config
+             | VL [VN 3; VN k; optexn]                                 plain class k (constructor order of plainclass) *)
+From NC Require Import Model.Base Model.Caps Model.Xml Model.Gating Model.VendorGating.
 
 Definition exn_code (e : exn) : N :=
   match e with
@@ -94,6 +99,26 @@ Definition d_call (v : val) : option call :=
   | _ => None
   end.
 
+Definition d_plain (n : N) : option plainclass :=
+  match n with
+  | 0 => Some KJCommand | 1 => Some KJGetConfiguration | 2 => Some KJLoadConfiguration | 3 => Some KJCompareConfiguration
+  | 4 => Some KJExecuteRpc | 5 => Some KJReboot | 6 => Some KJHalt | 7 => Some KJRollback | 8 => Some KSMdCliRawCommand
+  | 9 => Some KAShowCli | 10 => Some KHGetBulk | 11 => Some KHCli | 12 => Some KHAction | 13 => Some KHSave | 14 => Some KHLoad
+  | 15 => Some KHRollback | 16 => Some KPDisplayCommand | 17 => Some KPConfigCommand | 18 => Some KPAction | 19 => Some KPSave
+  | 20 => Some KPRollback | 21 => Some KWCli | 22 => Some KWAction | 23 => Some KXSaveConfig | 24 => Some KNExecCommand
+  | _ => None
+  end.
+Definition d_vcall (v : val) : option vgcall :=
+  match v with
+  | VL [VN 0; VB fmt; t; VL []; dop] => do t' <- d_ds t; do dop' <- d_optexn dop; Some (GALoadConfiguration fmt t' None dop')
+  | VL [VN 0; VB fmt; t; VL [cfg]; dop] =>
+      do t' <- d_ds t; do cfg' <- d_optexn cfg; do dop' <- d_optexn dop; Some (GALoadConfiguration fmt t' (Some cfg') dop')
+  | VL [VN 1; b] => do b' <- d_optexn b; Some (GAGetConfiguration b')
+  | VL [VN 2; s; f] => do s' <- d_ds s; do f' <- d_optexn f; Some (GHGetBulkConfig s' f')
+  | VL [VN 3; VN k; b] => do k' <- d_plain k; do b' <- d_optexn b; Some (GPlain k' b')
+  | _ => None
+  end.
+
 Definition e_event (e : event) : val :=
   match e with
   | EvAssert k => VL [VN 0; VB k]
@@ -112,5 +137,10 @@ Definition run (v : val) : val :=
       | _, _ => verr 1
       end
   | VL [VN 2; VB s] => vbool (xml_chars_ok s)
+  | VL [VN 3; s; c] =>
+      match d_sess s, d_vcall c with
+      | Some s', Some c' => let (tr, o) := vperform s' c' in VL [VL (map e_event tr); e_outcome o]
+      | _, _ => verr 1
+      end
   | _ => verr 1
   end.
